@@ -120,3 +120,20 @@ def client_values(code: bytes, salt: bytes, a: int, B_b: bytes, user: bytes = b"
     K = Hb(PAD(S))
     M1 = Hb(H_GROUP, Hb(user), salt, PAD(A), PAD(B), K)
     return dict(A=A, A_b=PAD(A), u=u, S=S, K=K, M1=M1, M2=Hb(PAD(A), M1, K))
+
+
+def skip_zero_variant_accepts(code: bytes, salt: bytes, b: int, A_b: bytes, M1_b: bytes, user: bytes = b"Pair-Setup") -> bool:
+    """INFORMATIONAL ONLY - not the oracle.  Some SRP stacks (srptools' integer hashing; the
+    'skip leading zeroes' option of other libraries) hash A, B and S *without* their leading zero
+    bytes in M1 and K.  DESIGN.md section 5 fixes the padded convention for this property; this
+    function only lets the evidence record how many generated exchanges would be judged
+    differently under the other convention (they can differ only when A, B or S starts with 0x00)."""
+    acc = Accessory(code, salt, b, user)
+    A = os2ip(A_b)
+    if A >> (8 * NLEN) or A % N == 0:
+        return False
+    u = os2ip(Hb(PAD(A), acc.B_b))
+    S = modexp((A * modexp(acc.v, u, N)) % N, b, N)
+    K = Hb(minimal(S))
+    M1 = Hb(H_GROUP, Hb(user), bytes(salt), minimal(A), minimal(acc.B), K)
+    return bytes(M1_b) == M1
